@@ -68,6 +68,23 @@ def impl_run_hod(payload):
             cfg['HOD_params']['ELG_params'].update(logM_cut=12.4, logM1=12.7, kappa=0.1, ic=0.8)
             hod = AbacusHOD(cfg['sim_params'], cfg['HOD_params'], cfg['clustering_params'])
             hid = set(int(x) for x in hod.halo_data['hid'])
+            # the staged halo rows are rows of the files: every column of a staged halo is the file's value for THAT id (the
+            # decision rule is evaluated "at the host mass and secondary ranks" of the halo whose random is compared)
+            fid = np.concatenate([sl['halos']['id'] for sl in slabs])
+            row = {int(v): k for k, v in enumerate(fid)}
+            rows = np.array([row.get(int(v), -1) for v in hod.halo_data['hid']], dtype=np.int64)
+            if (rows < 0).any():
+                rec['problems'].append('staging: staged halo ids that are in no file')
+            else:
+                for skey, fkey, scale in (('hdeltac', 'deltac_rank', 1.0), ('hfenv', 'fenv_rank', 1.0), ('hmass', 'N', 2.1e9),
+                                          ('hrandoms', 'randoms', 1.0), ('hmultis', 'multi_halos', 1.0), ('hsigma3d', 'sigmav3d_L2com', 1.0)):
+                    if skey in hod.halo_data:
+                        fv = np.concatenate([np.asarray(sl['halos'][fkey], dtype=np.float64) for sl in slabs])[rows] * scale
+                        sv = np.asarray(hod.halo_data[skey], dtype=np.float64)
+                        if sv.shape != fv.shape or not np.allclose(sv, fv, rtol=1e-5, atol=1e-7):
+                            k = int(np.argmax(np.abs(sv - fv))) if sv.shape == fv.shape else -1
+                            rec['problems'].append(f'staging: column {skey} of staged halo {k} (id {int(hod.halo_data["hid"][k])}) is '
+                                                   f'{float(sv[k])!r}, the files say {float(fv[k])!r}: columns misaligned')
             ref = None
             for n in c['threads']:
                 # a table of NFW draws handed over WITHOUT asking for NFW satellites is documented to be ignored ("only needed if
@@ -116,6 +133,6 @@ def cases(ctx):
     out = []
     for (H, P, nslab, order) in ((40, 160, 2, 'increasing'), (60, 300, 3, 'interleaved'), (25, 90, 2, 'decreasing')):
         out.append({'H': H, 'P': P, 'nslab': nslab, 'order': order, 'seed': rng.randrange(1 << 30), 'ranks': rng.random() < 0.5,
-                    'AB': rng.random() < 0.5, 'rsd': rng.random() < 0.7, 'threads': [1, 3, 16] if ctx.quick() else [1, 2, 3, 7, 16],
+                    'AB': order != 'increasing' or rng.random() < 0.5, 'rsd': rng.random() < 0.7, 'threads': [1, 3, 16] if ctx.quick() else [1, 2, 3, 7, 16],
                     'nfw_draw': len(out) != 1})
     return out
